@@ -69,6 +69,7 @@ def run_check(pid, harnesses, tier="quick", seed=0, budget=None, level="proof", 
     os.makedirs(os.path.join(VERIF, "evidence"), exist_ok=True)
 
     n_obl = n_dis = 0
+    n_known_obl = 0
     violations, undecided, crashes, known_hits = [], [], [], []
     by_kind, by_backend = {}, {}
     solve_s = 0.0; max_t = 0.0; paths = 0
@@ -115,7 +116,7 @@ def run_check(pid, harnesses, tier="quick", seed=0, budget=None, level="proof", 
             kf = next((k for k in known if finding_matches(k, pid, hid, f["name"])), None)
             if kf is not None:
                 known_hits.append((hid, f["name"], kf["what"]))
-                n_dis += 0
+                n_known_obl += sum(1 for o in rec["obligations"] if o["name"] == f["name"] and o["status"] != "unsat")
                 continue
             in_ledger = f["name"] in led
             if f.get("replayed"):
@@ -133,8 +134,11 @@ def run_check(pid, harnesses, tier="quick", seed=0, budget=None, level="proof", 
             json.dump(new_ledger, f, indent=0, sort_keys=True)
 
     # ---- report ------------------------------------------------------------------------------------
+    seen_what = {}
     for hid, name, what in sorted(set(known_hits)):
-        print(f"KNOWN-FINDING: property={pid} {what} [{hid} :: {name}]")
+        seen_what.setdefault(what, []).append(f"{hid} :: {name}")
+    for what, where in seen_what.items():
+        print(f"KNOWN-FINDING: property={pid} {what} [{len(where)} obligation(s), e.g. {where[0]}]")
     vio_lines = 0
     for hid, f, how in violations:
         fn = hashlib.sha1((hid + f["name"]).encode()).hexdigest()[:10]
@@ -155,7 +159,8 @@ def run_check(pid, harnesses, tier="quick", seed=0, budget=None, level="proof", 
 
     wall = time.time() - t0
     cov = {
-        "obligations": n_obl, "discharged": n_dis,
+        "obligations": n_obl - n_known_obl, "discharged": n_dis,
+        "obligations_failing_as_known_findings": n_known_obl,
         "checker_cmd": f"./check {pid} --tier {tier}",
         "trusted_base": TRUSTED_BASE,
         "harnesses": len(_H), "paths_explored": paths,
